@@ -2,10 +2,12 @@ package codec
 
 import (
 	"reflect"
+	"strings"
 
 	"github.com/bluenviron/gomavlib/v3/pkg/message"
 
 	"verifharness/ref"
+	twincommon "verifharness/twin/common"
 )
 
 // User-defined message structs covering shapes the shipped dialects lack or have once.
@@ -199,6 +201,8 @@ func userMessages() []message.Message {
 		&MessageVfOne{}, &MessageVfAllTypes{}, &MessageVfStable{}, &MessageVfExtMix{}, &MessageVfMavname{},
 		&MessageVfBig255{}, &MessageVfBigString{}, &MessageVfSingle{}, &MessageVfEnums{}, &MessageVfBaseAndBigExt{},
 		&MessageVfEsc_1To_4{}, &MessageVf2Gps2Raw{}, &MessageVfWide{}, &MessageVfHighID{}, &MessageVfLowID{}, &MessageDebug{},
+		// a user package called "common" with messages that carry the names and ids of shipped ones and other definitions
+		&twincommon.MessageHeartbeat{}, &twincommon.MessageDebug{}, &twincommon.MessageParamRequestRead{},
 	}
 }
 
@@ -207,6 +211,9 @@ func userMsgInfos() ([]*msgInfo, error) {
 	var out []*msgInfo
 	for _, m := range userMessages() {
 		mi := &msgInfo{Name: "user." + reflect.TypeOf(m).Elem().Name(), Msg: m, Type: reflect.TypeOf(m).Elem()}
+		if strings.HasSuffix(mi.Type.PkgPath(), "twin/common") {
+			mi.Name = "twin.common." + mi.Type.Name()
+		}
 		l, err := ref.LayoutOf(mi.Type)
 		if err != nil {
 			return nil, err
